@@ -374,6 +374,8 @@ def apply_op(iso, op, sizes):
     try:
         if k == 'add_fp':
             data = blob_content(op['blob'], op['size'])
+            if op.get('isolinux'):
+                data = (b'\x00' * 0x40 + b'\xfb\xc0\x78\x70' + data)[:max(op['size'], 0x44)]
             kw = {}
             if 'iso' in op:
                 kw['iso_path'] = op['iso']
@@ -441,6 +443,10 @@ def apply_op(iso, op, sizes):
             iso.add_eltorito(op['bootfile'], **kw)
         elif k == 'rm_eltorito':
             iso.rm_eltorito()
+        elif k == 'add_isohybrid':
+            iso.add_isohybrid(**op.get('kw', {}))
+        elif k == 'rm_isohybrid':
+            iso.rm_isohybrid()
         elif k == 'force_consistency':
             iso.force_consistency()
         elif k == 'dup_pvd':
